@@ -28,6 +28,26 @@ CHECKS = {
         note="Trusts the brute-force reference in mc/refs.py and a pennies tolerance (0.005*matched+0.02). Sizes/prices outside the menu and >4 orders per selection are not covered.",
         section="6/C16",
     ),
+    "C08": dict(
+        engine="E3 gridx + E1 simx",
+        technique="exhaustive enumeration of fill lists x settlement scenarios on real orders through the real closed-market processing, against an exact-arithmetic settlement reference; plus exhaustive small end-to-end simulated runs to a CLOSED update",
+        text="Every multiset of <=3 fragments over 6 prices x 3 sizes x 17 settlement scenarios (win/place/each-way, dead heat 1..4, removed, unsettled) x "
+        "LIMIT/LOC/MOC x both sides through Blotter.process_closed_market and order.profit, line markets with results below/equal/above/absent, exact BACK/LAY "
+        "antisymmetry; and every set of <=2 (thorough 3) orders from a 9-order menu x market type x result vector x non-runner factor x clients/commission "
+        "through a real simulated run ending in a CLOSED update, checking order.profit and the ClearedMarketsEvent payload per client.",
+        note="Trusts the settlement rules restated in refs.ref_settle and a pennies tolerance; each-way dead heats and multi-winner dead heats are outside the statement's domain.",
+        section="6/C08",
+    ),
+    "C05": dict(
+        engine="E3 gridx + E1 simx",
+        technique="exhaustive enumeration of books x placements executed by the real simulated execution inside real runs, safety predicates evaluated on every fragment",
+        text="Every book of 0-3 levels over 5 ladder prices x level sizes {1,2,5} x best-price-execution on/off, and against each one every "
+        "(side x 7 limits x 2 sizes x 6 TIF/min-fill variants) placed through the public API and executed by the real SimulatedExecution; "
+        "resting leftovers continued with every traded-volume sequence up to length 2 (thorough 3). Checks limit/VWAP, per-level availability against "
+        "the book the placement executed against, FOK all-or-nothing/never rests/complete at next callback, and the BPE lapse.",
+        note="Trusts: FOK VWAP tolerance 0.005; prices/sizes outside the menu not covered; maximal fill is not demanded.",
+        section="6/C05",
+    ),
 }
 
 PENDING_REASON = "check not built yet in this session (work in progress; see DESIGN.md section 8 for the order of work)"
